@@ -43,7 +43,8 @@ ApplyOpt ==
 
 \* the participants handed to the ordering contract: file loaders are priority-ordered with Order 0
 \* (user-written loaders may implement Ordered / Priority themselves: lk "ordm" "ordz" "ordp" are ordered with Order -1 0 1,
-\*  "priom" "priop" priority-ordered with Order -1 1; raw and args loaders are unordered)
+\*  "priom" "priop" priority-ordered with Order -1 1; raw and args loaders are unordered, and so is "markl": a loader carrying
+\*  the Priority marker without an Order())
 Part(i) == LET lkd == sc.opts[i].lk IN
            CASE lkd = "file" -> [cls |-> "prio", ord |-> 0]
              [] lkd = "priom" -> [cls |-> "prio", ord |-> 0 - 1] [] lkd = "priop" -> [cls |-> "prio", ord |-> 1]
